@@ -509,7 +509,11 @@ impl Source {
             if name != "Vcs-Browser" {
                 // Vcs::from_field expects the VCS name without the "Vcs-" prefix
                 if let Some(vcs) = name.strip_prefix("Vcs-") {
-                    return crate::vcs::Vcs::from_field(vcs, &value).ok();
+                    // (a Vcs-* field of a kind that is not understood does
+                    // not hide the ones that follow)
+                    if let Ok(vcs) = crate::vcs::Vcs::from_field(vcs, &value) {
+                        return Some(vcs);
+                    }
                 }
             }
         }
